@@ -55,6 +55,9 @@ def check(ctx, F):
     routing.check_descend(ctx, F, "C02.descend")
     sub = C03._Alias(ctx, {"C03.cs-dispatch": "C02.cs-dispatch"})
     C03.check_cs_dispatch(sub, F)
+    # the orthogonal counterpart: OS_<nonlast>::wideX hands the request to Initial::deepX and Remaining::wideX of the *same* member
+    from . import C01
+    C01.check_ortho_all(C03._Alias(ctx, {"C01.ortho-all": "C02.cs-dispatch"}), F)
     check_leftmost(ctx, F, "C02.leftmost")
     check_resumable_memory(ctx, F)
     check_reset(ctx, F)
@@ -369,6 +372,15 @@ def check_registry_siblings(ctx, F):
         b = reg_skeleton(F, ctx, noo[name])
         # the no-orthogonal walk has no ortho arms: every path shape of it must occur among the general one's shapes
         ctx.instance("C02.registry-siblings", site, {"function": site, "loc": F.floc(noo[name]), "general_shapes": len(a), "noortho_shapes": len(b)})
+        # the conditions under which the composite arms act: same boolean functions of the same comparisons (truth tables over the
+        # comparison atoms; operand order, De Morgan forms and named temporaries do not matter)
+        from .common import cond_tables
+        ta = cond_tables(F, gen[name], r"compo\w+")
+        tb = cond_tables(F, noo[name], r"compo\w+")
+        for atoms, table in sorted(tb - ta):
+            ctx.violation("C02.registry-siblings", site + "/condition", "%s (%s | %s)" % (site, F.floc(gen[name]), F.floc(noo[name])),
+                          "the two RegistryT specialisations disagree on %s: the no-orthogonal one tests a boolean function of %s (truth table %s) that the "
+                          "general one does not contain" % (name, list(atoms), "".join("1" if v else "0" for v in table)), {})
         missing = b - a
         if missing:
             ex = sorted(missing, key=len)[0]
